@@ -6,6 +6,7 @@ ret:    b | m | s (scalar T) | bool | u64 | int
 expr:   C++ expression over a,b,c (batches), m,n (masks), s (scalar); {n} etc. are literal variants.
 """
 from . import specs as S
+from . import wholespecs as WS
 from .configs import INTS, FPS, ALL
 
 
@@ -15,6 +16,9 @@ class Op(object):
         self.params, self.ret, self.expr, self.spec = params, ret, expr, spec
         self.variants = variants
         self.note = note
+        self.whole = False
+        self.ptr_type = None
+        self.mem_bits = None
 
 
 def _counts(ty):
@@ -25,7 +29,12 @@ OPS = []
 
 
 def op(*a, **k):
-    OPS.append(Op(*a, **k))
+    extra = dict((x, k.pop(x)) for x in ('whole', 'ptr_type', 'mem_bits') if x in k)
+    o = Op(*a, **k)
+    for x, v in extra.items():
+        setattr(o, x, v)
+    OPS.append(o)
+    return o
 
 
 # ---- C01 ---------------------------------------------------------------------
@@ -107,5 +116,36 @@ op('fbandnot', 'fp', C02, FPS, 'bb', 'b', 'xsimd::bitwise_andnot(a, b)', S.bandn
 C08 = ['C08', 'C13']
 for _n in ('ceil', 'floor', 'trunc', 'nearbyint', 'rint'):
     op(_n, 'round', C08, FPS, 'b', 'b', 'xsimd::%s(a)' % _n, S.rounding(_n))
+
+# ---- C03 (masks) ---------------------------------------------------------------
+from engine import terms as _T
+op('mb_and', 'mask', C03, ALL, 'mm', 'm', '(m & n)', lambda ty, m, n: [S.P('and', _T.and_(m, n))])
+op('mb_or', 'mask', C03, ALL, 'mm', 'm', '(m | n)', lambda ty, m, n: [S.P('or', _T.or_(m, n))])
+op('mb_xor', 'mask', C03, ALL, 'mm', 'm', '(m ^ n)', lambda ty, m, n: [S.P('xor', _T.xor(m, n))])
+op('mb_not', 'mask', C03, ALL, 'm', 'm', '(~m)', lambda ty, m: [S.P('not', _T.not_(m))])
+op('mb_lnot', 'mask', C03, ALL, 'm', 'm', '(!m)', lambda ty, m: [S.P('not', _T.not_(m))])
+op('mb_eq', 'mask', C03, ALL, 'mm', 'm', '(m == n)', lambda ty, m, n: [S.P('xnor', _T.not_(_T.xor(m, n)))])
+op('mb_neq', 'mask', C03, ALL, 'mm', 'm', '(m != n)', lambda ty, m, n: [S.P('xor', _T.xor(m, n))])
+op('mb_andnot', 'mask', C03, ALL, 'mm', 'm', 'xsimd::bitwise_andnot(m, n)', lambda ty, m, n: [S.P('m & ~n', _T.and_(m, _T.not_(n)))])
+op('mb_land', 'mask', C03, ALL, 'mm', 'm', '(m && n)', lambda ty, m, n: [S.P('and', _T.and_(m, n))])
+op('mb_lor', 'mask', C03, ALL, 'mm', 'm', '(m || n)', lambda ty, m, n: [S.P('or', _T.or_(m, n))])
+op('select', 'mask', C03, ALL, 'mbb', 'b', 'xsimd::select(m, a, b)', lambda ty, m, a, b: [S.P('c ? x : y', _T.sel(m, a, b))])
+op('mask', 'mask', C03, ALL, 'm', 'u64', 'm.mask()', WS.mask_spec, whole=True)
+op('from_mask', 'mask', C03, ALL, 'u', 'm', 'M_<{T}>::from_mask(u)', WS.from_mask_spec, whole=True)
+op('all', 'mask', C03, ALL, 'm', 'bool', 'xsimd::all(m)', WS.all_spec, whole=True)
+op('any', 'mask', C03, ALL, 'm', 'bool', 'xsimd::any(m)', WS.any_spec, whole=True)
+op('none', 'mask', C03, ALL, 'm', 'bool', 'xsimd::none(m)', WS.none_spec, whole=True)
+op('count', 'mask', C03, ALL, 'm', 'size', 'xsimd::count(m)', WS.count_spec, whole=True)
+op('mget', 'mask', C03, ALL, 'm', 'bool', 'm.get({i})', WS.get_spec, whole=True,
+   variants=lambda ty: [{'i': 0}, {'i': 1}, {'i': (128 // ty.bits) - 1}])
+op('bool_to_batch', 'mask', C03, ALL, 'm', 'b', 'B_<{T}>(m)', lambda ty, m: [S.P('c ? 1 : 0', _T.sel(m, (S.fone(ty) if ty.is_fp else S.K(ty, 1)), S.K(ty, 0)))])
+
+# ---- C09 ---------------------------------------------------------------------
+C09 = ['C09']
+op('reduce_add', 'reduce', C09, ALL, 'b', 's', 'xsimd::reduce_add(a)', WS.reduce_add_spec, whole=True)
+op('reduce_max', 'reduce', C09, ALL, 'b', 's', 'xsimd::reduce_max(a)', WS.reduce_max_spec, whole=True)
+op('reduce_min', 'reduce', C09, ALL, 'b', 's', 'xsimd::reduce_min(a)', WS.reduce_min_spec, whole=True)
+op('reduce', 'reduce', C09, ALL, 'b', 's', 'xsimd::reduce([](B_<{T}> x, B_<{T}> y) {{ return B_<{T}>(ext_f_{TN}(x, y)); }}, a)', WS.reduce_generic_spec, whole=True)
+op('haddp', 'reduce', C09, FPS, 'p', 'b', 'xsimd::haddp(reinterpret_cast<const B_<{T}>*>(p))', WS.haddp_spec, whole=True)
 
 BY_NAME = dict((o.name, o) for o in OPS)
